@@ -376,6 +376,20 @@ func realPath(path string) string {
 // encounter a symbolic link chain. It returns path information about the final
 // target pointing to a regular file or directory.
 func (p *Packer) resolveExternalLink(root string, path string) (*externalSymlink, error) {
+	return p.resolveExternalLinkHops(root, path, 0)
+}
+
+// maxSymlinkHops bounds the length of a symlink chain we are willing to
+// follow, like the operating system's own limit (ELOOP).
+const maxSymlinkHops = 255
+
+func (p *Packer) resolveExternalLinkHops(root string, path string, hops int) (*externalSymlink, error) {
+	if hops > maxSymlinkHops {
+		return nil, &IllegalSlugError{
+			Err: fmt.Errorf("too many levels of symbolic links while resolving %q", path),
+		}
+	}
+
 	// Read the symlink file to find the destination.
 	target, err := os.Readlink(path)
 	if err != nil {
@@ -399,7 +413,7 @@ func (p *Packer) resolveExternalLink(root string, path string) (*externalSymlink
 
 	// Recurse if the symlink resolves to another symlink
 	if info.Mode()&os.ModeSymlink != 0 {
-		return p.resolveExternalLink(root, absTarget)
+		return p.resolveExternalLinkHops(root, absTarget, hops+1)
 	}
 
 	return &externalSymlink{
